@@ -22,6 +22,7 @@ let parse_call tok =
   | "lock" -> MtxLock | "trylock" -> MtxTryLock | "unlock" -> MtxUnlock
   | "semsignal" -> SemSignal | "semwait" -> SemWait | "semwaitt" -> SemWaitT (z_of_dec a) | "semtry" -> SemTryWait
   | "start" -> ThStart (nat_of_int (int_of_string a)) | "join" -> ThJoin (nat_of_int (int_of_string a))
+  | "startf" -> ThStartF (nat_of_int (int_of_string a))      (* Thread::start whose pthread_create fails *)
   | "csenter" -> CsEnter | "csleave" -> CsLeave
   | _ -> failwith ("bad call " ^ tok)
 
@@ -32,6 +33,7 @@ let call_str c = match c with
   | MtxLock -> "lock" | MtxTryLock -> "trylock" | MtxUnlock -> "unlock"
   | SemSignal -> "semsignal" | SemWait -> "semwait" | SemWaitT ms -> "semwaitt=" ^ dec_of_z ms | SemTryWait -> "semtry"
   | ThStart c -> "start=" ^ string_of_int (int_of_nat c) | ThJoin c -> "join=" ^ string_of_int (int_of_nat c)
+  | ThStartF c -> "startf=" ^ string_of_int (int_of_nat c)
   | CsEnter -> "csenter" | CsLeave -> "csleave"
 
 let ev_str e = match e with
